@@ -17,14 +17,15 @@ def lin_validate(recording, workers=8, timeout=1500):
     recs = [json.loads(l) for l in open(recording, encoding="utf-8") if l.strip()]
     rounds = [r for r in recs if "scripts" in r]
     liveness = [r for r in recs if r.get("liveness")]
-    n = max(1, min(workers, len(rounds)))
+    # small shards (at most ~60 rounds each): short searches, bounded queues
+    n = max(1, min(len(rounds), max(workers, (len(rounds) + 59) // 60)))
     parts = []
     for k in range(n):
         p = "%s.part%d" % (recording, k)
         with open(p, "w", encoding="utf-8") as f:
             for r in rounds[k::n]: f.write(json.dumps(r, ensure_ascii=False) + "\n")
         parts.append(p)
-    with ThreadPoolExecutor(max_workers=n) as ex:
+    with ThreadPoolExecutor(max_workers=max(1, min(workers, n))) as ex:
         outs = list(ex.map(lambda p: _lin_one(p, False), parts))
     # a shard TLC could not evaluate (a recorded state no behaviour of the specification reaches, met in the middle of the
     # search): re-run its rounds one by one; a round that still cannot be evaluated is reported as not explainable
